@@ -40,6 +40,8 @@ def subst(e, mapping):
         return (e[0], e[1], subst(e[2], mapping)) + e[3:]
     if e[0] in ("field", "downcast", "deref", "ref", "discr", "index"):
         return (e[0], subst(e[1], mapping)) + tuple(subst(x, mapping) if isinstance(x, tuple) else x for x in e[2:])
+    if e[0] == "mut" and len(e) == 3:
+        return ("mut", subst(e[1], mapping), e[2])
     return e
 
 
@@ -343,6 +345,14 @@ class Routine:
                         cls = ("ISNONE", inner)
                     elif isinstance(inner, tuple) and inner[0] == "call":
                         cls = ("MATCH", inner)
+                        # `if let Err(e) = helper(..) { return Err(e) }` on a private fallible helper is `helper(..)?`: the
+                        # helper's own decisions are this routine's decisions
+                        err_bad = (1 in bad_vals) or (bad_other and any(v == 0 for v, _ in t["arms"]))
+                        cbh = prog.bodies.get(inner[2])
+                        if err_bad and cbh is not None and self.inlineable(cbh) and (cbh.raw.get("output") or "").startswith(RESULT):
+                            c2, d2 = self.classify_try(inner)
+                            if d2 is not None:
+                                cls, inner_delegate = c2, d2
                     else:
                         cls = ("OTHER", sde)
             elif bad_vals == [0] and not bad_other and isinstance(sde, tuple) and (
